@@ -74,9 +74,65 @@ def pin_family(r, n):
     return out
 
 
+def threshold_family(r, n):
+    """Sparse random positions whose material lies in a band around the end-game threshold (the sum the engine compares
+    includes the piece-square values, so whether a position is an end game depends on where the men — and the two
+    kings, under the table in force — stand): the phase decision is taken on either side of the line, by small margins."""
+    val = {"q": 900, "r": 500, "b": 330, "n": 320, "p": 100}
+    out = []
+    tries = 0
+    while len(out) < n and tries < 60 * n:
+        tries += 1
+        target = r.randint(2650, 3350)
+        men, total = [], 0
+        while total < target - 100 and len(men) < 14:
+            k = r.choice("qrrbbnnpppppp")
+            if total + val[k] > target + 60:
+                k = "p"
+            men.append(k)
+            total += val[k]
+        if abs(total - target) > 120:
+            continue
+        board = {}
+        sq = lambda: (r.randrange(8), r.randrange(8))
+        wk = sq()
+        bk = sq()
+        if max(abs(wk[0] - bk[0]), abs(wk[1] - bk[1])) <= 1:
+            continue
+        board[wk], board[bk] = "K", "k"
+        ok = True
+        for m in men:
+            for _ in range(20):
+                s = sq()
+                if s in board or (m == "p" and s[0] in (0, 7)):
+                    continue
+                board[s] = m.upper() if r.random() < 0.5 else m
+                break
+            else:
+                ok = False
+        if not ok or sum(1 for v in board.values() if v == "P") > 8 or sum(1 for v in board.values() if v == "p") > 8:
+            continue
+        rows = []
+        for row in range(7, -1, -1):
+            s, e = "", 0
+            for col in range(8):
+                ch = board.get((row, col))
+                if ch:
+                    s += (str(e) if e else "") + ch
+                    e = 0
+                else:
+                    e += 1
+            rows.append(s + (str(e) if e else ""))
+        out.append("/".join(rows) + (" w" if r.random() < 0.5 else " b") + " - - 0 1")
+    return out
+
+
 def gen_cases(seed, salt, n_cases, plies):
     r = core.rng(seed, salt)
     cases = []
+    if salt in ("C16", "C03"):
+        for f in threshold_family(core.rng(seed, salt + "threshold"), 120 if n_cases < 1000 else 5000):
+            cases.append(gen_walk(r, f, 3))
     if salt in ("C01", "C03"):
         # the pin family: the lists at the root, one nested push/take-back of every kind, the lists again
         for f in pin_family(core.rng(seed, salt + "pins"), 150 if n_cases < 1000 else 6000):
